@@ -1054,11 +1054,86 @@ func (d *decExtractor) skeletonWith(fd *ast.FuncDecl, before func(*ast.FuncDecl)
 		return out
 	}
 	decRewriteLists(fd.Body, strip)
+	// N6: `must(h(args))` where h is a helper unknown to the model whose body, with the same plumbing removed, is
+	// straight-line and ends in `return <e>` / `return nil` / `return`: the body takes the place of the call
+	// (an extracted run of error-checked calls)
+	if d.nz != nil {
+		for round := 0; round < 3; round++ {
+			changed := false
+			decRewriteLists(fd.Body, func(l []ast.Stmt) []ast.Stmt {
+				var out []ast.Stmt
+				for _, s := range l {
+					if es, ok := s.(*ast.ExprStmt); ok {
+						if m, ok := es.X.(*ast.CallExpr); ok && decName(m.Fun) == "must" && len(m.Args) == 1 {
+							if call, ok := m.Args[0].(*ast.CallExpr); ok {
+								if h := d.nz.helperOf(call); h != nil {
+									if bind := d.nz.binding(h, call); bind != nil {
+										if body := d.nz.cloneStmts(h.Body.List); body != nil {
+											holder := &ast.BlockStmt{List: body}
+											saveRecv, saveLocals := d.recv, d.locals
+											d.enter(h)
+											holder.List = strip(holder.List)
+											d.recv, d.locals = saveRecv, saveLocals
+											n := len(holder.List)
+											ok := n > 0
+											for i, t := range holder.List {
+												switch x := t.(type) {
+												case *ast.ReturnStmt:
+													if i != n-1 || len(x.Results) > 1 {
+														ok = false
+													}
+												case *ast.ExprStmt, *ast.AssignStmt, *ast.IncDecStmt:
+												default:
+													ok = false
+												}
+											}
+											if ok {
+												if _, isRet := holder.List[n-1].(*ast.ReturnStmt); !isRet {
+													ok = false
+												}
+											}
+											if ok {
+												d.nz.subst(holder, bind)
+												ret := holder.List[n-1].(*ast.ReturnStmt)
+												out = append(out, holder.List[:n-1]...)
+												if len(ret.Results) == 1 && decName(ret.Results[0]) != "nil" && decName(ret.Results[0]) != decLastResultName(h) {
+													out = append(out, &ast.ExprStmt{X: &ast.CallExpr{Fun: ast.NewIdent("must"), Args: []ast.Expr{ret.Results[0]}}})
+												}
+												changed = true
+												continue
+											}
+										}
+									}
+								}
+							}
+						}
+					}
+					out = append(out, s)
+				}
+				return out
+			})
+			if !changed {
+				break
+			}
+		}
+	}
 	if before != nil {
 		before(fd)
 	}
 	decClearPos(reflect.ValueOf(fd.Body))
 	return d.render(fd.Body)
+}
+
+// decLastResultName is the name of the last (error) result of a function ("" if unnamed).
+func decLastResultName(fd *ast.FuncDecl) string {
+	if fd.Type.Results == nil || len(fd.Type.Results.List) == 0 {
+		return ""
+	}
+	f := fd.Type.Results.List[len(fd.Type.Results.List)-1]
+	if len(f.Names) == 0 {
+		return ""
+	}
+	return f.Names[len(f.Names)-1].Name
 }
 
 // decRecvType is the receiver type name of a method ("" for a function).
